@@ -644,6 +644,11 @@ class LogFileDateSinceSeeker():
     def __len__(self):
         return self.length
 
+    def _is_line_feed(self, offset):
+        with SavedFilePosition(self.file) as f:
+            f.seek(offset)
+            return f.read(1) == self.LINE_FEED_TOKEN
+
     def __getitem__(self, offset):
         """
         Find the nearest line with a date at `offset` and return its date.
@@ -744,6 +749,15 @@ class LogFileDateSinceSeeker():
         # ... then, forwards.
         if not result or result.date is None:
             result = self.try_find_line_with_date(offset + 1, offset, True)
+            if (result and result.start_lf.offset == offset and
+                    not self._is_line_feed(offset)):
+                # offset is not a line feed so what we found is the tail of
+                # the line at offset, not a line. Carry on from the next one.
+                end_lf = result.end_lf
+                result = None
+                if end_lf.status == FindTokenStatus.FOUND:
+                    result = self.try_find_line_with_date(end_lf.offset + 1,
+                                                          end_lf.offset, True)
 
         if not result or result.date is None:
             raise TooManyLinesWithoutDate(
